@@ -134,6 +134,15 @@ class ASTSchemaPrinter:
 
         indent = self.indent * depth
 
+        if "\r" in definition.description:
+            # Block strings normalise line terminators ("\r" and "\r\n" read
+            # back as "\n"): only a quoted string keeps a carriage return.
+            return "%s%s%s\n" % (
+                "\n" if indent and not first_in_block else "",
+                indent,
+                print_ast(ast_node_from_value(definition.description, String)),
+            )
+
         max_len = 120 - len(indent)
         lines = list(wrapped_lines(definition.description.split("\n"), max_len))
         first = lines[0]
